@@ -20,7 +20,7 @@ import (
 //	                                 slices of structs by value and by pointer, a by-value struct field
 //	                                 with its own embedding chain (VD2), a pointer to the depth-4 chain,
 //	                                 map[string]interface, interface{}
-//	VPE{*VLeaf; …}                   an embedded POINTER (fixed ops only, see notes/C10.md)
+//	VPE{*VLeaf; …}                   an embedded POINTER: a field like any other, key `VLeaf` (fix C10-06)
 
 type VD4 struct {
 	Lo int64   `json:"lo"`
